@@ -145,22 +145,29 @@ func (ms *MapScen) setup() (m MapLike, st MState, nfill int, problem string, inf
 func (ms *MapScen) setup0() (m MapLike, st MState, infra bool, problem string) {
 	defer func() {
 		if r := recover(); r != nil {
-			// the intended table shape could not be produced; decide below whether the counters are to blame
-			s := m.Stats()
-			if m.Size() != s.Size || s.Counter != s.Size {
-				problem = fmt.Sprintf("sequential prologue: Size=%d, counter=%d, physical entries=%d (%v)", m.Size(), s.Counter, s.Size, r)
+			// the intended table shape could not be produced: a counter that disagrees with the physical
+			// contents at some point of the sequential prologue is a violation, anything else is not a verdict
+			if msg := fmt.Sprint(r); strings.HasPrefix(msg, "COUNT:") {
+				problem = "sequential prologue: " + msg
 			} else {
 				problem, infra = fmt.Sprintf("scenario cannot be armed: %v", r), true
 			}
 		}
 	}()
-	m, st = ms.setupRaw()
+	st = ms.setupRaw(&m)
 	return
 }
 
-func (ms *MapScen) setupRaw() (MapLike, MState) {
+func countCheck(m MapLike, where string) {
+	if s := m.Stats(); m.Size() != s.Size || s.Counter != s.Size {
+		panic(fmt.Sprintf("COUNT: %s: Size=%d, counter=%d, physical entries=%d", where, m.Size(), s.Counter, s.Size))
+	}
+}
+
+func (ms *MapScen) setupRaw(out *MapLike) MState {
 	l := layoutFor(ms.Rel)
 	m := newContainer(ms.C, l)
+	*out = m
 	slots := ms.C.slots()
 	var st MState
 	putKeys := func() {
@@ -238,6 +245,7 @@ func (ms *MapScen) setupRaw() (MapLike, MState) {
 			n++
 		}
 		m.Store(fillTarget+slots, 1999) // full chain + above threshold: grows
+		countCheck(m, "after the first grow")
 		if g := m.Stats().TotalGrowths; g != 1 {
 			panic(fmt.Sprintf("prologue: expected exactly one growth, got %d", g))
 		}
@@ -264,11 +272,12 @@ func (ms *MapScen) setupRaw() (MapLike, MState) {
 			}
 			m.Delete(fillSpread + j)
 		}
+		countCheck(m, "after deleting down to the shrink threshold")
 		if s := m.Stats(); s.TotalShrinks != 0 || s.RootBuckets != 64 {
 			panic(fmt.Sprintf("prologue: shrink-armed table not as intended: %+v", s))
 		}
 	}
-	return m, st
+	return st
 }
 
 type rangeOut struct {
